@@ -135,6 +135,32 @@ Definition C04_refine_step_full_statement : Prop := forall es o so,
   | None => sr_err (step es o) <> None
   end.
 
+(* stated, not proved (the correspondence run checks it on every generated case): the remaining operation kinds refine
+   the nested dict on the domain on which a plain dict replay is determined — prefix-free key lists, strict select,
+   out-of-place flatten_keys, a non-empty separator *)
+Fixpoint prefix_free (ps : list (list string)) : Prop :=
+  match ps with
+  | [] => True
+  | p :: r => Forall (fun q => ~ (exists t, q = p ++ t) /\ ~ (exists t, p = q ++ t)) r /\ prefix_free r
+  end.
+
+Definition in_scope_remaining (o : op) : Prop :=
+  match o with
+  | OSelect ks _ strict _ => strict = true /\ prefix_free (map strings ks)
+  | OExclude ks _ _ => prefix_free (map strings ks)
+  | OSplit sets _ _ _ _ => prefix_free (map strings (List.concat sets))
+  | OFlatten _ inplace _ => inplace = false
+  | OUnflatten sep _ _ => sep <> ""
+  | _ => False
+  end.
+
+Definition C04_refine_step_remaining_statement : Prop := forall es o so,
+  wfE es -> abs_op o = Some so -> in_scope_remaining o ->
+  match nd_step py_split (absE es) so with
+  | Some r => sr_err (step es o) = None /\ abs_sres (step es o) = r
+  | None => sr_err (step es o) <> None
+  end.
+
 Theorem C04_flatten_inplace_refuted :
   exists es, wfE es /\
     match nd_step py_split (absE es) (SFlatten "." true false) with
